@@ -294,6 +294,21 @@ func c09Handshakes(c *core.Ctx) {
 			}
 		}
 	}
+	// user names of every length and shape an account can have (LOGIN_NAME_MAX is 256; directory-service accounts are
+	// long, carry dots, dashes, '@domain', upper-case and non-ASCII letters): each has a well-formed file listing key 0
+	{
+		names := []string{"a", "u1234567", strings.Repeat("n", 31), strings.Repeat("n", 32), strings.Repeat("m", 33), "svc-observability-logshipper-production-eu-central-1",
+			strings.Repeat("l", 64), strings.Repeat("k", 128), strings.Repeat("j", 200), "first.last", "first_last-2", "user@example.org", "Alice", "ALLCAPS", "zoë", "üser", "name+tag", "9lives", "x.y.z-w_v"}
+		for _, n := range names {
+			WriteAuthorizedKeys(n, "# "+n+"\n"+Keys[0].Line+"\n")
+			short := n
+			if len(short) > 40 {
+				short = fmt.Sprintf("%s... (%d bytes)", n[:12], len(n))
+			}
+			cases = append(cases, hs{"user name " + short + ": listed key", n, ssh.PublicKeys(Keys[0].Signer), true},
+				hs{"user name " + short + ": unlisted key", n, ssh.PublicKeys(Keys[2].Signer), false})
+		}
+	}
 	for _, h := range cases {
 		cl, err := dial(ts.Addr, h.user, h.auth)
 		got := err == nil
@@ -486,7 +501,7 @@ func init() {
 		Level: "exploration",
 		Rule: "A: authorized_keys files = all sequences of <=3 (quick) / <=4 (thorough) lines over 11 line kinds (rsa/ed25519/ecdsa keys, key with options, key with comment, comment, blank, whitespace, garbage word, CRLF, commented-out key), " +
 			"with/without final newline, x 4 offered keys, through the real verifyAuthorizedKeys: an unlisted key is never accepted, and every key listed in a well-formed file is accepted.  B: the real Server.Callback for 11 user names (incl. case variants of the service users) x 9 passwords x " +
-			"7 source addresses (IPv4 and IPv6) x 5 job configurations: granted <=> health user with the health password, or job user whose password is a configured job name and whose address is on that job's allow list.  C: 19 real SSH handshakes (incl. one per key type rsa/ed25519/ecdsa-P256/P384/P521 and per RSA signature algorithm) against an " +
+			"7 source addresses (IPv4 and IPv6) x 5 job configurations: granted <=> health user with the health password, or job user whose password is a configured job name and whose address is on that job's allow list.  C: 57 real SSH handshakes (incl. one per key type rsa/ed25519/ecdsa-P256/P384/P521 and per RSA signature algorithm; and 19 user names of 1..200 bytes with dots, dashes, '@domain', upper-case and non-ASCII letters, each with the listed and an unlisted key) against an " +
 			"in-process server and 8 commands in a real health session (no file content, session ends).  D: every sequence of <=3 authentication requests over 2 connections x 3 users x 3 keys through the real PublicKeyCallback (a client may name a different user in every request): each answer depends on that request's user and key alone.  non-trivial = cases where a grant is expected",
 		Assumptions: []string{"proof of key possession and signature checks are x/crypto/ssh's (trusted)", "net.LookupIP of literal IP addresses needs no resolver"},
 		Serial:      false,
